@@ -1,3 +1,78 @@
-From PD Require Import Model.Tracking Proofs.C06.
-Theorem C06_stub : True. Proof. exact stub_C06. Qed.
-Print Assumptions C06_stub.
+(* C06 -- tracking neither loses, duplicates nor alters droplets: property theorems only.
+   Model: Model/Tracking.v (track_all, both methods); a droplet is (frame index, index in the frame),
+   a frame is (time, number of droplets), an entry of a track is (time stamp, droplet).
+   Input immutability and copy-on-append are heap statements (C20); here: the model never changes
+   earlier entries of a track (C06_track_prefix). *)
+From Coq Require Import List Arith QArith Permutation Sorted.
+Import ListNotations.
+From PD Require Import Model.Tracking Proofs.Tracking Proofs.C06.
+Local Open Scope nat_scope.
+
+(* every droplet of every frame appears in exactly one track exactly once *)
+Theorem C06_track_partition : forall m frames trs,
+  track_all m frames = Ok trs ->
+  Permutation (all_ids_of trs) (all_ids frames) /\ NoDup (all_ids_of trs).
+Proof. exact c06_partition. Qed.
+Print Assumptions C06_track_partition.
+
+(* ... stamped with its frame's time *)
+Theorem C06_track_time_stamp : forall m frames trs,
+  track_all m frames = Ok trs ->
+  forall tr t d, In tr trs -> In (t, d) (entries tr) ->
+                 exists n, nth_error frames (fst d) = Some (t, n) /\ snd d < n.
+Proof. exact c06_time_stamp. Qed.
+Print Assumptions C06_track_time_stamp.
+
+(* never raises: every history, including frames without droplets, both methods, every cut-off
+   (cdist's precondition, argmin of an empty array, list indices and the loop bound are explicit
+   errors of the model) *)
+Theorem C06_track_total : forall m frames, exists trs, track_all m frames = Ok trs.
+Proof. exact c06_total. Qed.
+Print Assumptions C06_track_total.
+
+(* earlier entries of a track are never changed and tracks keep their position *)
+Theorem C06_track_prefix : forall m fr1 fr2 trs2,
+  track_all m (fr1 ++ fr2) = Ok trs2 ->
+  exists trs1, track_all m fr1 = Ok trs1 /\
+    length trs1 <= length trs2 /\
+    forall k tr, nth_error trs1 k = Some tr ->
+                 exists tr' suf, nth_error trs2 k = Some tr' /\ entries tr' = entries tr ++ suf.
+Proof. exact c06_prefix. Qed.
+Print Assumptions C06_track_prefix.
+
+(* strictly increasing times; overlap method: no droplet overlaps an earlier droplet of its own
+   frame (method_ok); distance method: no further hypothesis *)
+Theorem C06_track_one_per_frame : forall m frames trs,
+  StronglySorted Qlt (map fst frames) -> method_ok m frames -> track_all m frames = Ok trs ->
+  forall tr, In tr trs -> NoDup (track_frames tr).
+Proof. exact c06_one_per_frame. Qed.
+Print Assumptions C06_track_one_per_frame.
+
+Theorem C06_track_gap_free : forall m frames trs,
+  StronglySorted Qlt (map fst frames) -> method_ok m frames -> track_all m frames = Ok trs ->
+  forall tr, In tr trs -> exists s, track_frames tr = seq s (length (entries tr)).
+Proof. exact c06_gap_free. Qed.
+Print Assumptions C06_track_gap_free.
+
+(* the in-frame hypothesis is needed for the overlap method *)
+Theorem C06_overlap_two_per_frame_without_hypothesis :
+  exists ov frames trs tr, track_all (MOverlap ov) frames = Ok trs /\ In tr trs /\
+                           ~ NoDup (track_frames tr).
+Proof. exact overlap_two_per_frame_witness. Qed.
+Print Assumptions C06_overlap_two_per_frame_without_hypothesis.
+
+(* the guard `if tracks_alive and len(emulsion) > 0` is what makes the distance method total *)
+Theorem C06_unguarded_distance_fails :
+  dist_frame_unguarded (fun _ _ => 1%Q) None 1%Q 1 0 [0] [t_new (0%Q, (0, 0))] = Err ECdistEmpty.
+Proof. exact unguarded_fails. Qed.
+Print Assumptions C06_unguarded_distance_fails.
+
+(* non-vacuity: a time course with an empty frame, a continuing, a disappearing and an appearing
+   droplet satisfies the hypotheses, for both methods *)
+Example C06_nonvacuous :
+  StronglySorted Qlt (map fst ex_frames) /\ method_ok (MOverlap ex_ov) ex_frames /\
+  track_all (MOverlap ex_ov) ex_frames
+  = Ok [([(0%Q, (0, 0))], ((1 # 2)%Q, (1, 0))); ([], (0%Q, (0, 1))); ([], (3%Q, (3, 0)))] /\
+  track_all (MDistance (fun a b => if did_eqb a (0, 0) then 1%Q else 3%Q) (Some 2%Q)) ex_frames
+  = Ok [([(0%Q, (0, 0))], ((1 # 2)%Q, (1, 0))); ([], (0%Q, (0, 1))); ([], (3%Q, (3, 0)))].
+Proof. exact (conj ex_increasing (conj ex_inframe (conj ex_result ex_result_dist))). Qed.
